@@ -771,12 +771,10 @@ def corpus_cases():
     return out
 
 
+# used only when corpus/sema/ is missing
 BUILTIN_CORPUS = [
     (2, (('a', 7), ('r', 7, 0), ('r', 7, 1))),                                     # the unguarded edge
-    (3, (('a', 1), ('a', 1), ('a', 1), ('r', 1, 2), ('r', 1, 2), ('r', 1, 0), ('r', 1, 1),
-         ('a', 1), ('a', 1), ('r', 1, 4), ('r', 1, 3))),                           # double release of a pending token
     (3, (('a', 1), ('a', 1), ('a', 1), ('r', 1, 2), ('r', 1, 1), ('r', 1, 0))),    # run of three drained at once
-    (1, (('a', 1), ('a', 2), ('b', 2), ('r', 1, 0), ('a', 2), ('r', 2, 0))),
 ]
 
 
@@ -810,9 +808,13 @@ def run(ctx):
 
     if ctx.broken is None:
         # ---- A. corpus, exhaustive, random, malformed
-        corp = corpus_cases() + BUILTIN_CORPUS
+        corp = corpus_cases() or BUILTIN_CORPUS
         mism += common.differential(ctx, 'sema', corp, line_S, run_impl_S, key=nontrivial_key, hist=hist_S('corpus'))
         n_ex = n_or = 0
+        for cap, ops in corp:
+            n_or += 1
+            if oracle(cap, ops):
+                report_oracle(ctx, cap, ops)
         step = 2 if ctx.thorough() else 3
         for ex in chunks(exhaustive_cases(ctx), 200000):
             mism += common.differential(ctx, 'sema', ex, line_S, run_impl_S, key=nontrivial_key,
@@ -853,7 +855,7 @@ def run(ctx):
                 ctx.report(f'task:{c[0]}:{"".join(c[1])}', r, {'kind': 'history', 'component': 'TaskSemaphore',
                                                              'case': {'kind': 'T', 'cap': c[0], 'ops': list(c[1])}})
         # ---- C. the oracle on the generated histories (it may catch what the model agrees with)
-        for cap, ops in corp + valid[::2] + malformed[::2]:
+        for cap, ops in valid[::2] + malformed[::2]:
             n_or += 1
             if oracle(cap, ops, second_pass=(n_or % 3 == 0)):
                 report_oracle(ctx, cap, ops)
